@@ -4,7 +4,7 @@ from fractions import Fraction
 import lib, storelib as S, arithlib as A
 from lib import Result, RMODES, OMODES, model_call, run_sharded, e_fmt, e_f64, e_list, e_dy, Reader, outcome
 
-RULE = ('float, Python-int, int64-array and int-list carriers; core-domain formats with n_word<=16, all 10 mode pairs, dyadic scale s = +-2^j (so that (v-b)/s is dyadic) and s = k/2^j with inputs chosen as v = s*t + b for a dyadic t, dyadic bias b; '
+RULE = ('float, Python-int, int64-array, int-list and narrow NumPy carriers (int8..uint64, float32, float16; a targeted 12% has inputs exact in float16/float32 whose transformed value needs more bits than the carrier); core-domain formats with n_word<=16, all 10 mode pairs, dyadic scale s = +-2^j (so that (v-b)/s is dyadic) and s = k/2^j with inputs chosen as v = s*t + b for a dyadic t, dyadic bias b; '
         'every intermediate (v-b, (v-b)/s, s*q, s*q+b) is verified to be an exact double before a case is used (cases failing that test are discarded and counted). Inputs t sweep codes and quarter-LSB offsets '
         'over twice the range. Observed: val, get_val(), upper, lower, precision, status after the constructor and after calls; best-size construction (no sizes given) for scaled objects. '
         'Compared with Spec.quantize of t, s*code*2^-n_frac+b, the affine images of the limits, and with the model Conv.store_scaled. Non-trivial = quantization changes t; distinct by full input.')
@@ -14,7 +14,25 @@ def exact_double(q):
     try: return Fraction(float(q)) == q
     except OverflowError: return False
 
+def gen_narrow_float(rng):
+    """an input that is exact in float16 / float32 while (v - bias)/scale needs more significant bits than that carrier has"""
+    while True:
+        nw = rng.choice([8, 12, 16, rng.randint(4, 16)]); s_ = rng.random() < 0.7; nf = rng.choice([0, 1, 2, nw // 2, rng.randint(0, nw)])
+        half = rng.random() < 0.6
+        bits = 11 if half else 24
+        n = rng.choice([1, 1, 3]); vs = []
+        for _ in range(n):
+            k = rng.randint(1, (1 << bits) - 1) * rng.choice([1, -1]); j = rng.randint(0, 14 if half else 24)
+            vs.append(Fraction(k, 1 << j))
+        scale = Fraction(rng.choice([1, 1, -1, 2, 4]), 2 ** rng.randint(0, 2)); bias = Fraction(rng.randint(-2048, 2048), 2 ** rng.randint(0, 3))
+        if scale == 1 and bias == 0: continue
+        ts = [(v - bias) / scale for v in vs]
+        if not all(exact_double(v) and exact_double(v - bias) and exact_double(t) and S.in_core(nf, t) and abs(v) < 60000 for v, t in zip(vs, ts)): continue
+        return {'s': s_, 'nw': nw, 'nf': nf, 'r': rng.choice(RMODES), 'o': rng.choice(OMODES), 'scale': scale, 'bias': bias, 'vs': vs, 'ts': ts,
+                'route': rng.choice(['ctor', 'call', 'set_val']), 'carrier': 'np:float16' if half else 'np:float32', 'pyint_params': rng.random() < 0.5}
+
 def gen(rng):
+    if rng.random() < 0.12: return gen_narrow_float(rng)
     while True:
         nw = rng.choice([2, 3, 4, 6, 8, 12, 16, rng.randint(1, 16)]); s_ = rng.random() < 0.6
         nf = rng.choice([0, 1, nw // 2, nw, -2, nw + 3, rng.randint(-8, nw + 8)])
